@@ -10,6 +10,7 @@ import Falcon.Model.Zp
 import Falcon.Model.RingZ
 import Falcon.Model.KeygenSkel
 import Falcon.Model.SignSkel
+import Falcon.Model.FftFlt
 import Falcon.Spec.Codec
 /- dispatch of one line-protocol op to the model -/
 namespace Falcon.Driver
@@ -55,6 +56,17 @@ def sigReencode (N : Nat) (b : List Nat) : Res (Except KeyCodec.DecErr (List Nat
   | .ok (salt, s) => pure (.ok (KeyCodec.sigToBytes salt s))
 
 def fbits (s : String) : Float := Float.ofBits (parseNat s).toUInt64
+
+def cparse (s : String) : List FftFlt.C :=
+  if s == "-" then [] else (s.splitOn ",").map fun p =>
+    match p.splitOn ":" with
+    | [a, b] => (Float.ofBits (parseNat a).toUInt64, Float.ofBits (parseNat b).toUInt64)
+    | _ => (0.0, 0.0)
+
+def zbits (x : Float) : Nat := if x == 0.0 then 0 else x.toBits.toNat
+
+def cfmt (v : List FftFlt.C) : String :=
+  if v.isEmpty then "-" else ",".intercalate (v.map fun (a, b) => s!"{zbits a}:{zbits b}")
 
 def execOp (chk : Bool) (tok : List String) : String :=
   match tok with
@@ -173,6 +185,13 @@ def execOp (chk : Bool) (tok : List String) : String :=
   | ["sign_salt", _, _, _, _] => "skip"
   | ["sign_fresh", _, _, _, _] => "skip"
   | ["sign_leaves", _, _, _, _] => "skip"
+  | ["cplx_fft", a] => cfmt (FftFlt.fft (cparse a))
+  | ["cplx_ifft", a] => cfmt (FftFlt.ifft (cparse a))
+  | ["cplx_roundtrip", a] => cfmt (FftFlt.ifft (FftFlt.fft (cparse a)))
+  | ["cplx_mul", a, b] => cfmt (FftFlt.ifft (List.zipWith FftFlt.cmul (FftFlt.fft (cparse a)) (FftFlt.fft (cparse b))))
+  | ["cplx_split", a] => let (x, y) := FftFlt.splitFft (cparse a); cfmt x ++ " " ++ cfmt y
+  | ["cplx_merge", a, b] => cfmt (FftFlt.mergeFft (cparse a) (cparse b))
+  | ["cplx_split_of_fft", a] => let (x, y) := FftFlt.splitFft (FftFlt.fft (cparse a)); cfmt x ++ " " ++ cfmt y
   | ["keygen", _, _] => "skip"
   | ["sk_roundtrip", _, _] => "skip"
   | ["keygen_digest", _, _] => "skip"
